@@ -62,7 +62,49 @@ type W struct {
 	KeepUnusedImports bool
 }
 
-func generate(dir string) (err error) {
+// generate runs one `gqlgen generate` the way a user does: in a process of its own (gqlgen keeps process-global
+// state between calls of api.Generate - the registry behind templates.ToGoModelName hands `UserID0` to a type
+// `userId` when an earlier run in the same process saw a type `user_id` - which no second invocation of the
+// command ever sees). The error text of the child is its standard output.
+func generate(dir string) error {
+	exe, err := os.Executable()
+	if err != nil {
+		return generateHere(dir)
+	}
+	cmd := exec.Command(exe, "-gen", dir)
+	cmd.Dir = dir
+	cmd.Env = os.Environ()
+	var out, errb strings.Builder
+	cmd.Stdout = &out
+	cmd.Stderr = &errb
+	if err := cmd.Start(); err != nil {
+		return generateHere(dir)
+	}
+	done := make(chan error, 1)
+	go func() { done <- cmd.Wait() }()
+	select {
+	case err = <-done:
+	case <-time.After(4 * time.Minute):
+		cmd.Process.Kill()
+		<-done
+		return fmt.Errorf("PANIC: generation did not finish within 4 minutes")
+	}
+	if msg := strings.TrimSuffix(out.String(), "\n"); strings.HasPrefix(msg, genErrMark) {
+		return fmt.Errorf("%s", strings.TrimPrefix(msg, genErrMark))
+	}
+	if err != nil {
+		e := errb.String()
+		if len(e) > 1200 {
+			e = e[len(e)-1200:]
+		}
+		return fmt.Errorf("PANIC: generator process: %v: %s", err, e)
+	}
+	return nil
+}
+
+const genErrMark = "C19-GENERATE-ERROR: "
+
+func generateHere(dir string) (err error) {
 	defer func() {
 		if p := recover(); p != nil {
 			err = fmt.Errorf("PANIC: %v", p)
@@ -75,32 +117,53 @@ func generate(dir string) (err error) {
 	return api.Generate(cfg)
 }
 
+// genoutRoot: <module root>/genout of the module the harness was started in (bin/check starts it in
+// <verif>/go, so an isolated copy of the framework uses its own tree and its own `replace` of gqlgen).
 func genoutRoot() string {
 	if r := os.Getenv("C19_ROOT"); r != "" {
 		return r
 	}
+	if d, err := os.Getwd(); err == nil {
+		for ; d != "/" && d != "."; d = filepath.Dir(d) {
+			if _, err := os.Stat(filepath.Join(d, "go.mod")); err == nil {
+				return filepath.Join(d, "genout")
+			}
+		}
+	}
 	return "/verif/go/genout"
 }
 
-func writeLib(root string) {
-	libs := map[string]string{
-		"c19lib/errors/e.go": "package errors\n\n// Wrap mimics github.com/pkg/errors.\nfunc Wrap(s string) error { return nil }\n",
-		"c19lib/mylib/m.go":  "package mylib\n\nfunc F() int { return 1 }\n",
-		"c19lib/v2/d.go":     "package deep\n\nfunc G() int { return 2 }\n",
+// runDir: the scratch projects of ONE harness run live in <genout>/c19r_<pid of the run>/c19_<case>/, so that
+// two runs at the same time (another seed, another tier, another copy of the framework) never write into, or
+// clean up, each other's projects. C19_RUN hands the directory to the worker subprocesses.
+func runDir() string {
+	if d := os.Getenv("C19_RUN"); d != "" {
+		return d
 	}
-	for p, s := range libs {
-		fp := filepath.Join(root, p)
-		os.MkdirAll(filepath.Dir(fp), 0o755)
-		if b, err := os.ReadFile(fp); err != nil || string(b) != s {
-			os.WriteFile(fp, []byte(s), 0o644)
+	return filepath.Join(genoutRoot(), fmt.Sprintf("c19r_%d", os.Getpid()))
+}
+
+// sweepStale removes what dead runs left behind: c19r_<pid> of a process that no longer exists, and
+// c19_* directories of the old flat layout once they are an hour old.
+func sweepStale(root string) {
+	ds, _ := filepath.Glob(filepath.Join(root, "c19r_*"))
+	for _, d := range ds {
+		pid := strings.TrimPrefix(filepath.Base(d), "c19r_")
+		if _, err := os.Stat("/proc/" + pid); err != nil {
+			os.RemoveAll(d)
+		}
+	}
+	ds, _ = filepath.Glob(filepath.Join(root, "c19_*"))
+	for _, d := range ds {
+		if st, err := os.Stat(d); err == nil && time.Since(st.ModTime()) > time.Hour {
+			os.RemoveAll(d)
 		}
 	}
 }
 
 func worker(c Case) {
-	root := genoutRoot()
 	pkg := fmt.Sprintf("c19_%d", c.ID)
-	dir := filepath.Join(root, pkg)
+	dir := filepath.Join(runDir(), pkg)
 	os.RemoveAll(dir)
 	if err := os.MkdirAll(dir, 0o755); err != nil {
 		panic(err)
@@ -182,10 +245,21 @@ func main() {
 	tier := flag.String("tier", "quick", "quick|thorough")
 	seed := flag.Uint64("seed", 1, "seed")
 	workerCase := flag.String("worker", "", "run one case (JSON) and print its observations")
+	genDir := flag.String("gen", "", "run api.Generate once in this project directory and print its error")
 	only := flag.String("only", "", "comma-separated directed case names / 'random' to restrict to")
 	nrand := flag.Int("n", -1, "number of random cases (default by tier)")
 	par := flag.Int("j", 0, "parallel workers")
+	onlyCase := flag.Int("case", -1, "run only the case with this number (as printed in a replay line)")
 	flag.Parse()
+	if *genDir != "" {
+		if err := os.Chdir(*genDir); err != nil {
+			panic(err)
+		}
+		if err := generateHere(*genDir); err != nil {
+			fmt.Print(genErrMark + err.Error())
+		}
+		return
+	}
 	if *workerCase != "" {
 		var c Case
 		if err := json.Unmarshal([]byte(*workerCase), &c); err != nil {
@@ -194,11 +268,11 @@ func main() {
 		worker(c)
 		return
 	}
-	root := genoutRoot()
-	writeLib(root)
-	old, _ := filepath.Glob(filepath.Join(root, "c19_*"))
-	for _, o := range old {
-		os.RemoveAll(o)
+	sweepStale(genoutRoot())
+	run := runDir()
+	os.RemoveAll(run)
+	if err := os.MkdirAll(run, 0o755); err != nil {
+		panic(err)
 	}
 	r := rng.New(*seed*0x9E3779B1 + 19)
 	var cases []Case
@@ -247,6 +321,9 @@ func main() {
 	for i := range cases {
 		cases[i].ID = i
 	}
+	if *onlyCase >= 0 && *onlyCase < len(cases) {
+		cases = cases[*onlyCase : *onlyCase+1]
+	}
 	exe, err := os.Executable()
 	if err != nil {
 		panic(err)
@@ -272,7 +349,7 @@ func main() {
 			defer func() { <-sem }()
 			cj, _ := json.Marshal(c)
 			cmd := exec.Command(exe, "-worker", string(cj))
-			cmd.Env = os.Environ()
+			cmd.Env = append(os.Environ(), "C19_RUN="+run)
 			var errb strings.Builder
 			cmd.Stderr = &errb
 			done := make(chan struct{})
@@ -308,10 +385,6 @@ func main() {
 	}
 	bw.Flush()
 	if os.Getenv("C19_KEEP") == "" {
-		ds, _ := filepath.Glob(filepath.Join(root, "c19_*"))
-		for _, d := range ds {
-			os.RemoveAll(d)
-		}
-		os.RemoveAll(filepath.Join(root, "c19lib"))
+		os.RemoveAll(run)
 	}
 }
